@@ -5,6 +5,7 @@ mod hcobs_fam;
 mod hmem;
 mod asl;
 mod genc;
+mod gdec;
 mod iovw;
 mod nfs;
 mod readn;
@@ -45,6 +46,7 @@ fn main() {
             "iovw" | "geo" => iovw::run(line),
             "asl" => asl::run(line),
             "genc" => genc::run(line),
+            "gdec" => gdec::run(line),
             "nfs" => nfs::run(line),
             "chunk" => stream::run_chunk(line),
             "gchk" => stream::run_gchunk(line),
